@@ -96,7 +96,17 @@ def judge (mode : String) (q a : List String) : Verdict :=
         if !feasible d.S tol impl then
           let badc := d.S.active.filter (fun c => !decide (load d.S impl c ≤ (d.S.cnst c).bound * (1 + tol)))
           let badv := d.S.vorder.filter (fun v => !feasible { d.S with active := [], vorder := [v] } tol impl)
-          .monfail s!"infeasible allocation by {solver}: constraints over capacity {badc} loads {badc.map (fun c => showRat (load d.S impl c))} variables outside [0,bound] or disabled with a rate {badv} values {badv.map (fun v => showRat (impl v))}"
+          -- classification help for check.py: does the maxmin model run at the configured precision reproduce the
+          -- implementation's (infeasible) answer while the exact-arithmetic run (eps = 0, `maxmin_feasible`) is feasible?
+          -- Then the overload comes from the precision tests as modelled (finding maxmin-precision-drops-constraint).
+          let tag :=
+            if solver = "maxmin" ∧ sel = "0" then
+              match maxminSolve d.S eps fuel d.val0, maxminSolve d.S 0 fuel d.val0 with
+              | some st, some st0 =>
+                if (firstDiff d.nv st.value impl).isNone && feasible d.S tol st0.value then " precision-model-agrees" else ""
+              | _, _ => ""
+            else ""
+          .monfail s!"infeasible allocation by {solver}: constraints over capacity {badc} loads {badc.map (fun c => showRat (load d.S impl c))} variables outside [0,bound] or disabled with a rate {badv} values {badv.map (fun v => showRat (impl v))}{tag}"
         else if solver = "maxmin" ∧ sel = "0" then
           match maxminSolve d.S eps fuel d.val0 with
           | none => .disagree "model-out-of-fuel"
